@@ -78,7 +78,7 @@ def replay_state(sp, st):
             return out
         alg.update()
     ex = np.array([float(fr(q)) for q in st["x"]])
-    if not np.allclose(alg.x, ex, atol=1e-12 * max(1.0, np.abs(ex).max()), rtol=0):
+    if not core.allclose(alg.x, ex, atol=1e-12 * max(1.0, np.abs(ex).max()), rtol=0):
         out.append(("iterate", "after %d updates x = %s, exact proximal-gradient iterate %s" % (st["iter"], alg.x, ex)))
     if alg.x is not xp:
         out.append(("not_in_place", "alg.x is not the caller's array"))
